@@ -128,7 +128,7 @@ def sem_outcomes(workdir, progs, cfgname, module="MCSem", workers=8, timeout=900
 def canon_outcome(o):
     """(end, key) for a spec outcome; key = canonical json of {regs, drops} ('' for race/deadlock/panic)"""
     end = o["end"]
-    if end in ("race", "deadlock", "panic"):
+    if end in ("race", "deadlock", "panic", "usage"):
         return (end, "")
     return (end, canon_key(o["regs"], o.get("drops"), o.get("stat")))
 
